@@ -45,6 +45,7 @@ type runner struct {
 	hp  map[string]*hpackCtx
 	srv map[string]*srvConn
 	cli map[string]*cliConn
+	pool map[string]*poolClient
 }
 
 func (r *runner) step(line string) (res string) {
@@ -65,6 +66,8 @@ func (r *runner) step(line string) (res string) {
 		an, ev, acq, rel := http2.VerifPoolReport()
 		sort.Strings(an)
 		return fmt.Sprintf("mon pool events=%d anomalies=%s acquired=%v released=%v", ev, strings.Join(an, "|"), acq, rel)
+	case strings.HasPrefix(f[0], "pool.cl."):
+		return r.runPool(f)
 	case strings.HasPrefix(f[0], "huff."):
 		return runHuff(f)
 	case strings.HasPrefix(f[0], "hpack."):
